@@ -162,6 +162,23 @@ def real_roundtrip(r, cm, comps, blocks, key, mk_enc, mk_dec_sets):
     binary = bytes.fromhex("".join(lines[lines.index("") + 1:]))
     hdr, _ = parse_header(binary)
     want_comps = B.file_view(f)[1]
+    # the SAME object written again after its session key changed: the second file must carry the new key
+    if len(key) == 16:
+        key_b = bytes([key[0] ^ 0x5A]) + key[1:]
+        b.session_key = key_b
+        s2 = io.StringIO()
+        b.write_file(s2, mk_enc())
+        for decs, opens in mk_dec_sets():
+            if not opens:
+                continue
+            try:
+                g2 = Bec2File.read_file(io.StringIO(s2.getvalue()), decs, True)
+            except Exception as e:   # noqa
+                return "second write of the same object (session key changed in between) is not readable: %s: %s" % (type(e).__name__, e)
+            if g2.session_key != key_b:
+                return "second write of the same object carries the old session key"
+            break
+        b.session_key = key
     for decs, opens in mk_dec_sets():
         try:
             g = Bec2File.read_file(io.StringIO(text), decs, True)
